@@ -616,6 +616,21 @@ def main():
 
     fact("noDefaultCtor", "List String", no_default_ctor, "[]")
 
+    def bytes_valued():
+        """registered classes whose `.value` / `.pythonize()` is the content as `bytes` (OCTET STRING
+        and its kin, and every class that keeps X690Type's default `decode_raw`)"""
+        out = []
+        for c in X690Type.all():
+            try:
+                obj = c.from_bytes(b"\x01", slice(0, 1))
+                if type(obj.value) is bytes and type(obj.pythonize()) is bytes:
+                    out.append(c.__name__)
+            except Exception:  # noqa: BLE001
+                pass
+        return lean_list([lean_str(n) for n in sorted(set(out))])
+
+    fact("bytesValued", "List String", bytes_valued, "[]")
+
     def digest_placeholder():
         from puresnmp_plugins.security import usm
 
